@@ -220,6 +220,9 @@ func walkerInputs() []string {
 		"entity Foo {\n  key fooId key:id62\n}\n",
 		"object Foo {\n  field a array {\n  }\n}\n",
 		"object Foo {\n  field a map {\n    itemSchema.string.format = \"x\"\n    keySchema string\n  }\n}\n",
+		"object Foo {\n  field f\n}\n",
+		"object Foo {\n  field f !\n}\n",
+		"topic Foo\n",
 		"object {\n}\n",
 		"object Foo Bar {\n}\n",
 		"object ! Foo {\n}\n",
